@@ -192,7 +192,11 @@ func init() {
 		return runServerProp(env, "C10", o, "Configurations here exclude 'none' (plus two controls that include it). Non-trivial: the server got past the first client envelope.", func(c *SCase) bool { return sentCount(c) >= 1 && len(c.Script) >= 2 })
 	})
 	register("C14", func(env *Env) error {
-		o := enumOpts{confs: serverConfs[:env.Pick(6, len(serverConfs))], oracles: serverOracles[:env.Pick(2, 3)], alphabet: serverAlphabet, depth: env.Pick(3, 4)}
+		c14confs := serverConfs
+		if !env.Thorough() {
+			c14confs = append(append([]*SConf(nil), serverConfs[:6]...), confsByName("tls-handshake-fails")...)
+		}
+		o := enumOpts{confs: c14confs, oracles: serverOracles[:env.Pick(2, 3)], alphabet: serverAlphabet, depth: env.Pick(3, 4)}
 		wrapCase = func(t string) string { return "(KScript " + t + ")" }
 		defer func() { wrapCase = nil }()
 		var ra abruptCase
